@@ -18,6 +18,8 @@ def st_units(prefix, src, extra=()):
 CHECKS = {}
 PENDING_REASON = "no check registered yet in this round (construction in progress, see DESIGN.md section 6); not a claim that model checking cannot apply"
 NOT_APPLICABLE = {}
+# checks reviewed by the lead and registered in MANIFEST.json (a reg/*.py file alone does not claim a property)
+CLAIMED = ["C01", "C02", "C03"]
 
 
 import glob as _glob
